@@ -30,8 +30,8 @@ def default_server():
 DEFAULT_SERVER = default_server()
 
 
-def x_cfg(base=1, flags=7, platform=0, override=1, mount=0):
-    return xl(xn(base), xn(flags), xn(platform), xn(override), xn(mount))
+def x_cfg(base=1, flags=7, platform=0, override=1, mount=0, h2=0):
+    return xl(xn(base), xn(flags), xn(platform), xn(override), xn(mount), xn(h2))
 
 
 CFG_NEW_AS_IS = x_cfg(0, 7, 0, 1, 0)
@@ -440,6 +440,15 @@ def gen_conn(rng, tier):
                                                                     conn_req(HEAD, path), conn_req(POST, path), conn_req(GET, path, 0, 0, 1)], "conn-files", mount))
     cases.append(conn_case(dflt, DEFAULT_SERVER, hs_all[:3] + fh[:-1], [conn_req(GET, p) for p in (b"/f.html", b"/d/n.html", b"/d/n.html", b"/%64/n.html", b"/d/")],
                            "conn-files", x_cfg(0, 7, 0, 1, 1)))
+    # the same over TLS + HTTP/2 (one connection, one stream per request): every kind of response, lines, files
+    h2 = x_cfg(1, 7, 0, 1, 1, 1)
+    for path in (b"/p", b"/n", b"/e", b"/f", b"/none", b"/./p", b"/a/"):
+        cases.append(conn_case(layered, b"S", hs_all, all_kinds_reqs(path), "conn-h2", h2))
+    cases.append(conn_case(dflt, DEFAULT_SERVER, hs_all, all_kinds_reqs(b"/n") + all_kinds_reqs(b"/"), "conn-h2", x_cfg(0, 7, 0, 1, 0, 1)))
+    cases.append(conn_case(strict, b"S", hs_all[:3] + lh + fh[:-1],
+                           [conn_req(GET, p) for p in (b"/l1", b"/l1", b"/l3", b"/f.html", b"/d/n.html", b"/d/n.html", b"/%75c/evil.html", b"/d//n.html", b"/d/")]
+                           + [conn_req(GET, b"/f.html", 0, 0, e) for e in (1, 2, 3)] + [conn_req(POST, b"/f.html"), conn_req(HEAD, b"/d/n.html")], "conn-h2", h2))
+    cases.append(conn_case(strict, b"S", hs_all[:3] + fh, [conn_req(GET, b"/big.html"), conn_req(GET, b"/big.html", 0, 0, 1), conn_req(GET, b"/big.html", 1)], "conn-h2", h2))
     for _ in range(140 if tier == "quick" else 3000):
         adds = [(rng.choice(CONN_PATTERNS), rand_rule(rng)) for _ in range(rng.randrange(0, 7))]
         if rng.random() < 0.3:
@@ -452,8 +461,8 @@ def gen_conn(rng, tier):
             rk = rng.choice([0] * 7 + [1, 1, 2])
             reqs.append(conn_req(method, path, rk, 1 if rng.random() < 0.25 else 0, rng.choice([0, 0, 0, 1, 2, 3]) if rk == 0 else 0))
         cfg = None
-        if rng.random() < 0.25:
-            cfg = x_cfg(1, 7, rng.randrange(2), rng.randrange(2), 0)
+        if rng.random() < 0.35:
+            cfg = x_cfg(1, 7, rng.randrange(2), rng.randrange(2), 0, 1 if rng.random() < 0.4 else 0)
         cases.append(conn_case(adds, rng.choice([b"Kvarn/0.6.3", b"S", b"x y"]), hs, reqs, "conn-random", cfg))
     # random: files, lines, percent-encoded spellings, rule sets over the same prefixes
     for _ in range(60 if tier == "quick" else 2000):
@@ -1081,7 +1090,8 @@ RULE = ("(a) kvarn::extensions::RuleSet::<u32> called directly: histories of add
         "random CSP rule sets with re-adds, sequences of 4-12 raw HTTP/1.1 requests (GET/HEAD/POST, Range satisfiable / unsatisfiable, "
         "If-Modified-Since in the future, accept-encoding gzip / br / zstd with the body decoded by the client, missing paths, paths refused by "
         "sanitize_request, paths rewritten by the Prime extension, 15 percent-encoded / double-slash spellings of the files) so that misses, hits, "
-        "304, 206, 416, 400, 404, 405, 5xx all occur, also with Extensions::new() as it is and with the other with_server_header flags; status, "
+        "304, 206, 416, 400, 404, 405, 5xx all occur, also with Extensions::new() as it is, with the other with_server_header flags, and over "
+        "TLS + HTTP/2 (h2 crate client, one stream per request; 10 directed cases + 14% of the random ones); status, "
         "the four security headers on the wire and the body of 200/206 GETs are compared with the model (c14.conn) and the specification "
         "(c14.conn_spec); nonce values are unified across body and policy; for If-Modified-Since + Range the status may be 304 or 416 "
         "(C09's subject). distinct_nontrivial counts distinct inputs with a rule hit / a nonce= occurrence / any package, line or connection run")
@@ -1106,8 +1116,8 @@ ASSUMPTIONS = [
     "preference, the NoServerCache mark); download and unknown names have no effect on what the property looks at; tmpl is not modelled; "
     "cache arguments are from the generator's vocabulary (no sign, no overflow in '<n>s'); allow-ips compares with the text 127.0.0.1",
     "responses that do not go through SendKind::send (409 unknown host, 429 from the limiter, connection-level parse errors) are outside "
-    "the property and the model; HTTP/2 and HTTP/2 push (SendKind::Push) run the same resolve_package call and are not exercised here "
-    "(C20 drives SendKind::send over h2)",
+    "the property and the model; HTTP/2 push (SendKind::Push) runs the same resolve_package call and is not exercised (no push extension is "
+    "mounted by the fixture's requests); HTTP/2 itself is (conn-h2 cases: TLS + ALPN h2, one stream per request)",
     "send-path fixture: query strings, request bodies and vary are not part of the fixture; compression is transparent (the client decodes; "
     "no accept-encoding together with Range); files are modelled as a map from the collapsed decoded path to content (no symbolic links, no "
     "'..'); error-page bodies are a placeholder; the nonce length is not fixed (a value is a run of >= 16 base64 characters)",
@@ -1149,7 +1159,7 @@ LEVEL_NOTE = ("Trusted: Coq kernel, extraction (ExtrOcamlBasic) reduced by an in
               "driver. The policy is compared as a parsed policy (directive -> source set), so a change of its spelling alone does not alarm; "
               "the text-level theorem nonce_in_directives is kept beside the parsed one. The generator's randomness is a parameter; the send "
               "path is modelled at the granularity of a fixture (which head reaches resolve_package with which path), the HTTP/1 printer and "
-              "HTTP/2 are other properties. No axioms.")
+              "the HTTP/2 framing are other properties. No axioms.")
 TECHNIQUE = ("Coq proof (refinement of an independent longest-match resolver for all add histories and sort outcomes; loop = splice "
              "specification for all bodies; parser-of-serialiser = rule content for all token rules; invariant over all lines of Present "
              "directives and request histories; header equations of the Package chain for all response heads) + differential correspondence "
